@@ -153,7 +153,9 @@ CHECKS["C01"] = {
             "overlapping call pairs. distinct_nontrivial = distinct (variant, key, message shape, strategy, failpoint) cells "
             "whose execution took at least one retry branch + native chunks and natural retries + thread configurations.",
     "assumptions": ["reference verifier (self-tested)", "scripted randomness steers by the current 40+32+17-per-iteration draw pattern; if the pattern changes the required branch counters drop to zero and the run is inconclusive, not a violation"],
-    "legs": [{"name": "matrix"}, {"name": "native"}, {"name": "concurrent"},
+    "legs": [{"name": "matrix"},
+             {"name": "native", "skip_if_violated": True, "timeout": {"quick": 300, "thorough": 3600}},
+             {"name": "concurrent", "skip_if_violated": True, "timeout": {"quick": 300, "thorough": 3600}},
              {"name": "tsan", "external": "tsan", "tiers": ["thorough"], "sublegs": [["C01", "concurrent"]], "scale": "20"},
              {"name": "miri-sign", "external": "miri", "tiers": ["thorough"],
               "shards": [["sign", 2, 1], ["sign", 2, 2], ["sign", 2, 3], ["sign", 3, 4]]}],
@@ -250,7 +252,8 @@ CHECKS["C08"] = {
 
 CHECKS["C15"] = {
     "title": "key generation is a deterministic function of the seed; every bit matters",
-    "rule": "History table seed -> fingerprint(sk bytes + in-memory basis incl. G, pk bytes). Every seed is generated (a) in the main "
+    "rule": "History table seed -> fingerprint(sk bytes + in-memory basis incl. G, pk bytes). A pool of seeds (96 + 24 quick, 1200 + 240 thorough) is generated twice on different worker threads; the seeds "
+            "whose key search took longest (longest generator streams) plus a few fixed ones are then generated (a) in the main "
             "thread with unrelated thread_rng draws in between, (b) by 8 concurrent threads walking the seeds in different orders "
             "while signing with other keys in between, (c) by two child processes started with different environment (TZ, LANG, "
             "environment size) - all fingerprints of a seed must be identical. Bit flips: for a base seed, the 257 keys of the seed "
